@@ -1409,6 +1409,82 @@ pub fn heavy_material_case(rng: &mut Rng) -> RPos {
     }
 }
 
+/// Sliders stacked on the rays of one king: on each ray a first blocker (a piece of the king's side,
+/// possibly pinned, or a non-attacking piece of the other side), sometimes a second one, and behind
+/// them up to every remaining square filled with sliders that attack along that ray. Many aligned
+/// attackers, x-rays through several pieces, no check from the stacked sliders themselves.
+pub fn stacked_rays_case(rng: &mut Rng) -> RPos {
+    const DIRS: [(i32, i32); 8] = [(1, 0), (-1, 0), (0, 1), (0, -1), (1, 1), (1, -1), (-1, 1), (-1, -1)];
+    loop {
+        let mut p = RPos::empty();
+        let them = rc(rng); // owner of the king in the centre of the rays
+        let us = other(them);
+        p.stm = rc(rng);
+        let k = rng.usize(64);
+        p.sq[k] = Some((them, Piece::King));
+        let (kf, kr) = fr(k);
+        let fill_pct = *rng.pick(&[40u64, 70, 100]);
+        for &(df, dr) in DIRS.iter() {
+            if rng.chance(1, 5) {
+                continue;
+            }
+            let diag = df != 0 && dr != 0;
+            let mut ray: Vec<usize> = Vec::new();
+            let (mut f, mut r) = (kf + df, kr + dr);
+            while (0..8).contains(&f) && (0..8).contains(&r) {
+                ray.push(idx(f, r));
+                f += df;
+                r += dr;
+            }
+            if ray.len() < 2 {
+                continue;
+            }
+            let first = rng.usize(ray.len() - 1);
+            let blockers = if rng.chance(1, 4) { 2 } else { 1 };
+            let mut i = first;
+            for _ in 0..blockers {
+                if i >= ray.len() - 1 {
+                    break;
+                }
+                let (_, rr) = fr(ray[i]);
+                let edge = rr == 0 || rr == 7;
+                let own = rng.chance(2, 3);
+                let pc = if own {
+                    let c = *rng.pick(&NONKING);
+                    if c == Piece::Pawn && edge { Piece::Knight } else { c }
+                } else {
+                    // a piece of the attacking side that does not attack along this ray
+                    match rng.below(3) {
+                        0 => Piece::Knight,
+                        1 if !edge && i > 0 => Piece::Pawn,
+                        _ => if diag { Piece::Rook } else { Piece::Bishop },
+                    }
+                };
+                p.sq[ray[i]] = Some((if own { them } else { us }, pc));
+                i += 1 + rng.usize(2);
+            }
+            for &s in ray.iter().skip(first + 1) {
+                if p.sq[s].is_none() && rng.chance(fill_pct, 100) {
+                    let pc = if rng.chance(1, 2) { Piece::Queen } else if diag { Piece::Bishop } else { Piece::Rook };
+                    p.sq[s] = Some((us, pc));
+                }
+            }
+        }
+        if p.sq.iter().filter(|x| x.is_none()).count() < 2 {
+            continue;
+        }
+        let uk = empty_sq(rng, &p);
+        if adjacent(uk, k) {
+            continue;
+        }
+        p.sq[uk] = Some((us, Piece::King));
+        random_clocks(rng, &mut p, false);
+        if p.structurally_sound().is_ok() && p.checkers().len() <= 2 {
+            return p;
+        }
+    }
+}
+
 /// Base for double-check classes: a king (often with castling rights and a clear path) attacked by
 /// two pieces at once (knight / pawn / slider in any combination).
 fn double_check_base(rng: &mut Rng) -> RPos {
